@@ -72,7 +72,7 @@ class H(dict):
             flags=[], solver="default", timeout=600, mem_gb=12, tiers=("quick", "thorough"),
             expect="pass", covers=None, isr=None, ignore=[], depth=None, finding=None,
             excludes=[], weight=1, recursion_is_violation=False, cflags=[], what="",
-            pre=None, no_cover=False, cover_timeout=None, bounds={}, nobody_ok=[],
+            pre=None, no_cover=False, replay_cflags=[], cover_timeout=None, bounds={}, nobody_ok=[],
         )
         d.update(kw)
         super().__init__(d)
@@ -395,7 +395,7 @@ class Runner:
         cmd = ["gcc", "-std=gnu11", "-g", "-O0", "-fsanitize=address,undefined",
                "-fno-sanitize-recover=undefined", "-fno-omit-frame-pointer", "-w",
                "-DVERIF_REPLAY"] + inc_flags(["-I" + d]) + BASE_DEFS + ["-D" + x for x in h.defines] + \
-            [c for c in h.cflags] + srcs + ["-o", os.path.join(outdir, "replay.bin"), "-lm", "-lpthread"]
+            [c for c in h.cflags] + list(h.replay_cflags) + srcs + ["-o", os.path.join(outdir, "replay.bin"), "-lm", "-lpthread"]
         sh = os.path.join(outdir, "run.sh")
         with open(sh, "w") as f:
             f.write("#!/bin/sh\n# native replay of a CBMC counterexample: same harness source, real repo sources,\n"
